@@ -847,17 +847,27 @@ func subReaderNext() mon.Sub {
 			plans := xport.Plans(c.Rng.Int63(), nil)
 			// the first message is read to its end, or discarded after k bytes: before the first byte, in the
 			// middle of a code point, exactly on a fragment boundary (3, 6), past its end
-			for _, dk := range []int{-1, 1, 0, 3, 6, 9} {
+			// ... or taken with one io.ReadFull of exactly the announced length (-2; unfragmented messages only), so that
+			// the reader never reports its end. In half of the cases a stand-alone ping (payload no UTF-8) sits
+			// between the two messages.
+			if c.I%2 == 0 {
+				pf := gen.Build([]gen.Shape{{Op: ref.OpPing, Fin: true, Len: 2 + c.I%5}}, side, c.Rng, true)
+				pb, _, _ := gen.Encode(pf)
+				b2 = append(pb, b2...)
+			}
+			for _, dk := range []int{-1, 1, 0, 3, 6, 9, -2} {
 				discard := dk >= 0
 				c.Count(1)
 				plan := plans[(c.I+1)%len(plans)]
-				o := drive.Opts{Entry: "reader", Side: side, CheckUTF8: true, Buf: []int{1, 3, 64}[c.I%3]}
+				o := drive.Opts{Entry: "reader", Side: side, CheckUTF8: true, Buf: []int{1, 3, 64}[c.I%3], ExactRead: dk == -2}
 				if discard {
 					o.Discard = map[int]int{0: dk}
 				}
 				a := drive.Run(xport.NewChunker(append(append([]byte(nil), b1...), b2...), plan), o)
 				ob := o
 				ob.Discard = nil
+				ob.ExactRead = false
+				o.ExactRead = false // (the expected events of the first message are the same however it was consumed)
 				b := drive.Run(xport.NewChunker(b2, plan), ob)
 				// the events of the second message as seen by the long-lived reader
 				ev1 := drive.Expect(f1, o)
